@@ -94,9 +94,9 @@ func driveSchnorr(c *ctx) {
 
 	verify := func(pk *bitcoin.SchnorrPublicKey, msg, sig []byte, vector bool) {
 		out := pk.Verify(msg, sig)
-		c.E("schnorr.Verify", "pk", hx(pk.Bytes()), "msg", hx(msg), "sig", hx(sig), "out", out, "vector", vector)
+		c.E("schnorr.Verify", "pk", hx(pk.Bytes()), "msg", hx(msg), "sig", hx(sig), "out", out, "vector", vector, "nilmsg", msg == nil)
 	}
-	msgLens := []int{0, 1, 31, 32, 33, 64, 65, 1000}
+	msgLens := []int{0, -1, 1, 31, 32, 33, 64, 65, 1000} // -1: the zero-length message as a nil slice
 
 	// ---- signing: deep signSchnorr with chosen aux, and the public Sign with a scripted reader
 	var keys []*big.Int
@@ -115,7 +115,10 @@ func driveSchnorr(c *ctx) {
 			if !c.thorough() && ki > 3 && (ki+mi)%3 != 0 {
 				continue
 			}
-			msg := randBytes(rng, ml)
+			msg := randBytes(rng, ml&^(ml>>63))
+			if ml < 0 {
+				msg = nil
+			}
 			for ai := 0; ai < 3; ai++ {
 				aux := randBytes(rng, 32)
 				if ai < 2 {
@@ -125,7 +128,7 @@ func driveSchnorr(c *ctx) {
 				copy(a32[:], aux)
 				sig, err := deepSignSchnorr(&a32, sk, msg)
 				c.E("schnorr.Sign", "kind", "deep", "d", h32(d), "aux", hx(aux), "msg", hx(msg), "ok", err == nil, "sig", hx(sig),
-					"pub", hx(pk.Bytes()), "verified", err == nil && pk.Verify(msg, sig))
+					"pub", hx(pk.Bytes()), "verified", err == nil && pk.Verify(msg, sig), "nilmsg", msg == nil)
 				var rd io.Reader = &fixedReader{append([]byte{}, aux...)}
 				switch (ki + mi + ai) % 4 { // the 32 bytes may arrive in any chunking, the last chunk may come with io.EOF
 				case 1:
@@ -137,7 +140,7 @@ func driveSchnorr(c *ctx) {
 				}
 				sig2, err2 := sk.Sign(rd, msg, nil)
 				c.E("schnorr.Sign", "kind", "public", "d", h32(d), "aux", hx(aux), "msg", hx(msg), "ok", err2 == nil, "sig", hx(sig2),
-					"pub", hx(pk.Bytes()), "verified", err2 == nil && pk.Verify(msg, sig2))
+					"pub", hx(pk.Bytes()), "verified", err2 == nil && pk.Verify(msg, sig2), "nilmsg", msg == nil)
 				if err != nil {
 					continue
 				}
@@ -173,7 +176,7 @@ func driveSchnorr(c *ctx) {
 		// constructed rejections: R with odd y (un-negated nonce), R at infinity (s = e d)
 		dneg := new(big.Int).SetBytes(deepSchnorrD(sk))
 		for t := 0; t < c.scale(2, 6); t++ {
-			msg := randBytes(rng, msgLens[(ki+t)%len(msgLens)])
+			msg := randBytes(rng, msgLens[(ki+t)%len(msgLens)]&^(msgLens[(ki+t)%len(msgLens)]>>63))
 			k := add(randBig(rng, add(bigN, -1)), 1)
 			R := mulG(k)
 			if R.IsYOdd() == 0 {
